@@ -223,6 +223,14 @@ def check_positions_in(src_by_id: dict[int, str], name: str, tok) -> tuple[str, 
     return None
 
 
+_LINE_BREAKS = "\n\r\x0b\x0c\x1c\x1d\x1e\x85\u2028\u2029"
+
+
+def _line_count(prefix: str) -> int:
+    """Number of complete lines in *prefix* (which ends at a line start), str.splitlines rules."""
+    return len(prefix.splitlines())
+
+
 def check_error(err) -> tuple[str, str] | None:  # noqa: ANN001
     """T5: an error's position lies in its token's source and context() describes it."""
     tok = err.token
@@ -252,6 +260,29 @@ def check_error(err) -> tuple[str, str] | None:  # noqa: ANN001
     if got != expect:
         return ("error-position:context-text-mismatch",
                 f"line {lineno} col {col}: {got!r} != {expect!r}")
+    # the column counts from the start of the line the offset is on: the text before the
+    # column is the source text before the offset, and that line starts right there
+    # (this also decides an error at the very end of input, where no text follows)
+    if col < 0 or col > s:
+        return ("error-position:column-outside-line", f"line {lineno} col {col} for offset {s}")
+    before = src[s - col : s]
+    if s == len(src):
+        # end of input after a final line break is reported as the end of the last line
+        for nl in ("\r\n", *_LINE_BREAKS):
+            if before.endswith(nl):
+                before = before[: -len(nl)]
+                break
+    shown = current[:col]  # (the reported line has its trailing whitespace removed)
+    if not before.startswith(shown) or before[len(shown):].strip() or any(ch in before for ch in _LINE_BREAKS):
+        return ("error-position:column-text-mismatch",
+                f"line {lineno} col {col}: text before the column {current[:col]!r} != source before offset {before!r}")
+    if s - col > 0 and src[s - col - 1] not in _LINE_BREAKS:
+        return ("error-position:column-not-from-line-start",
+                f"line {lineno} col {col} for offset {s}: the line does not start at offset {s - col} "
+                f"({src[max(0, s - col - 12) : s - col]!r} precedes it)")
+    if lineno != _line_count(src[: s - col]) + 1:
+        return ("error-position:line-number-mismatch",
+                f"line {lineno} reported for offset {s}, which is on line {_line_count(src[: s - col]) + 1}")
     return None
 
 
